@@ -169,6 +169,17 @@ def gen_history(rng, cfg=None):
             u['hashes'] = special_hashes      # the requested set equals the existing one: nothing else is dirty
             u.pop('force', None)
             u.pop('path', None)
+        if i > 0 and cfg.get('p_reuse', 0.2) and rng.random() < cfg.get('p_reuse', 0.2):
+            # the same loader object goes on after its save (a long-running caller): constructor options are those
+            # of the previous round; only scope, force and last_mtime may differ
+            pu = rounds[-1]['update']
+            if pu.get('api') == 'lib' and not pu.get('wm_of'):
+                for k in ('hashes', 'sort', 'watermark', 'format', 'profile', 'wm_of', 'create'):
+                    u.pop(k, None)
+                    if k in pu and k != 'create':
+                        u[k] = pu[k]
+                u['api'] = 'lib'
+                u['reuse'] = True
         rounds.append({'edits': eds, 'update': u})
     return {'order_key': '%016x' % rng.getrandbits(64), 'top': 'Manifest', 'tree': tree,
             'manifests': manifests, 'rounds': rounds}
